@@ -1,4 +1,5 @@
 import Verif.Props.C03
+import Verif.Props.C03Spec
 import Verif.Facts.CpuCodeStep
 /-
   C03 for the code itself: the bus accesses of the Lean translation of the Go handlers are exactly the
@@ -14,5 +15,13 @@ theorem C03_code_step (model : CpuModel) (r : Regs) (opc : Byte) (i : Instr) (hd
 theorem C03_code_fetch_once (model : CpuModel) (r : Regs) :
     ∃ k, plainM (codeStep model) r = .load r.pc k := by
   rw [codeStep_eq_stepNow]; exact (C03_fetch_once model r).1
+
+/-- on the real machines: after a run of the TRANSLATED code on any of the memory models the access statistics of every
+    physical byte of every bank (and all contents) are those after the specification's own run on that machine -/
+theorem C03_code_run_machine (model : CpuModel) (k : MemKind) (n : Nat) (m : Machine MemState)
+    (hx : Verif.Proofs.RunExact model (memBus k) n m.regs m.mem) :
+    (codeRunLoop model (memBus k) n m).2.mem.stat = (Verif.Proofs.specLoop model (memBus k) n m.regs m.mem).2.2.stat ∧
+    (codeRunLoop model (memBus k) n m).2.mem.data = (Verif.Proofs.specLoop model (memBus k) n m.regs m.mem).2.2.data := by
+  rw [codeRunLoop_eq]; exact C03_run_machine model k n m hx
 
 end Verif.Props.C03
